@@ -183,6 +183,7 @@ def generate(unit, repo, vacuity=False, falsify=False, stub_fns=None, drop_asser
     header = '#![feature(allocator_api)]\nuse vstd::prelude::*;\n'
     chunks.append(header)
     pre_text = ''
+    repo_item_names = set()
     prelude_names = set()   # type / trait names the trusted stubs define: they stand for DEPENDENCY items
     for p in unit.prelude:
         private = False
@@ -197,6 +198,9 @@ def generate(unit, repo, vacuity=False, falsify=False, stub_fns=None, drop_asser
         pre_text += '// ---- prelude: %s (trusted stubs: assumed contracts on dependencies)\n' % p + t + '\n'
         for m_ in re.finditer(r'^\s*(?:pub(?:\([^)]*\))?\s+)?(?:struct|enum|trait|type|union)\s+([A-Z]\w*)', t, re.M):
             prelude_names.add(m_.group(1))
+        # names the prelude declares as SPECIFICATION stand-ins of items of the repository itself (not of a dependency) are exempt
+        for m_ in re.finditer(r'^//@repo-items:(.*)$', t, re.M):
+            repo_item_names.update(m_.group(1).split())
     spec_text = ''
     for p in unit.spec:
         with open(os.path.join(CONTRACTS, p)) as f:
@@ -321,7 +325,7 @@ def generate(unit, repo, vacuity=False, falsify=False, stub_fns=None, drop_asser
                 src_chk = src_all if spec.file != _ex.EXPANDED else _ex.expanded_text(repo)
                 if src_chk:
                     own = {getattr(sp_, 'path', [''])[-1].split()[-1] for sp_ in unit.items if getattr(sp_, 'kind', '') == 'struct'}
-                    for nm_ in sorted(prelude_names - own):
+                    for nm_ in sorted(prelude_names - own - repo_item_names):
                         if re.search(r'\b%s\b' % nm_, base_text) and re.search(r'^\s*(?:pub(?:\([^)]*\))?\s+)?(?:unsafe\s+)?(?:struct|enum|trait|union)\s+%s\b' % nm_, src_chk, re.M):
                             raise A.Lost('`%s` is defined in %s itself: the prelude stub of the dependency item of that name does not describe it' % (nm_, spec.file))
                 if spec.ret:
